@@ -521,6 +521,7 @@ void
         new_len = *prev_len;
     } else {
 	new_len = alpha * *prev_len;
+	if ( new_len <= *prev_len ) new_len = *prev_len + 1; /* always make progress: callers retry until the array is long enough */
     }
     
     if ( type == LSUB || type == USUB ) lword = sizeof(int_t);
@@ -537,6 +538,7 @@ void
 		    if ( ++tries > 10 ) return (NULL);
 		    alpha = Reduce(alpha);
 		    new_len = alpha * *prev_len;
+		    if ( new_len <= *prev_len ) new_len = *prev_len + 1;
 		    new_mem = (void *) SUPERLU_MALLOC((size_t)new_len * lword);
 		}
 	    }
@@ -579,6 +581,7 @@ void
 		    if ( ++tries > 10 ) return (NULL);
 		    alpha = Reduce(alpha);
 		    new_len = alpha * *prev_len;
+		    if ( new_len <= *prev_len ) new_len = *prev_len + 1;
 		    extra = (new_len - *prev_len) * lword;	    
 		}
 	    }
